@@ -138,6 +138,8 @@ func RunHistory(cfg Config, seed int64, dir string) (res *Result) {
 			res.Stats["c04-public-patterns"] += sc.NPublic
 			res.Stats["c04-images-scanned"] += sc.Images
 			res.Stats["c04-writes-scanned"] += sc.Puts
+			res.Stats["c04-known-key-open-attempts"] += sc.KnownKey
+			res.Stats["o2-secret-scripts-sealed-under-the-all-zero-key"] += sc.O2
 			res.Stats["c04-bytes-scanned-KiB"] += int(sc.Bytes >> 10)
 		}()
 		if x.fail(sc.ScanImage(w)) {
